@@ -62,7 +62,11 @@ func (r *Run) triggerOK(op mfs.Op) bool {
 
 // Drive runs one generated history; returns the first divergence.
 func Drive(run *Run, rng *rand.Rand, nops int, clean bool, views bool) *Divergence {
-	gen := &mfs.Gen{Cfg: mfs.GenCfg{Names: []string{"a", "b", "c"}, MaxDepth: 3, Spell: true, Views: views,
+	names := []string{"a", "b", "c"}
+	if rng.Intn(3) == 0 {
+		names = []string{"a", "ab", "b"} // one name is a string prefix of another
+	}
+	gen := &mfs.Gen{Cfg: mfs.GenCfg{Names: names, MaxDepth: 3, Spell: true, Views: views,
 		PrecondBias: 0.85, Weights: mfs.DefaultWeights(), NoDestInsideSrc: true}, R: rng, M: run.Model}
 	for i := 0; i < nops; i++ {
 		var st Step
